@@ -180,6 +180,11 @@ package kv
 //@   modifies nothing
 //@   loop 0 invariant fresh(vs) && -1 <= rangeindex && rangeindex < len(ks) && len(vs) == rangeindex + 1
 //@   loop 0 invariant forall j int :: 0 <= j && j <= rangeindex ==> vs[j] == ks[j].Value
+//@   loop 0 exit len(vs) == len(ks)
+//@   loop 0 exit forall j int :: 0 <= j && j < len(ks) ==> vs[j] == ks[j].Value
+//@   loop 0 exit forall j int :: 0 <= j && j < len(ks) ==> ks[j].Value == vs[j]      // (the same, triggered from the other side)
+//@   loop 0 exit forall k string :: has(s.m, k) && pmatch(pattern, s.m[k].Key) ==> exists i int :: 0 <= i && i < len(ks) && ks[i] == s.m[k]
+//@   loop 0 exit forall k string :: has(s.m, k) && pmatch(pattern, s.m[k].Key) ==> exists i int :: 0 <= i && i < len(vs) && vs[i] == s.m[k].Value
 
 // directory listings. A path is compared by its terms: the elements of the cleaned path split at "/"
 // (what strings.Split returns is described by two uninterpreted functions: the number of pieces and
